@@ -447,6 +447,9 @@ func buildExternals() map[string]extFn {
 	}
 	m["internal/bytealg.MakeNoZero"] = func(ex *Exec, fr *frame, a []value) value {
 		n := int(ex.concreteInt(a[0], "MakeNoZero"))
+		if n < 0 || n > 1<<24 {
+			ex.panicRuntime("makeslice: len out of range")
+		}
 		s := make([]value, n)
 		for i := range s {
 			s[i] = I(0)
